@@ -1,7 +1,7 @@
 (* C11 — valid queries parse to the structure they denote; invalid ones are rejected; parsing
    never panics.  Statements only. *)
 From Coq Require Import Permutation.
-From DT Require Import Lib.Bytes Lib.Split Gen.Consts Model.C11_Query Proofs.C11_Query Proofs.C11_Surface Proofs.C11_Order Proofs.C11_Denote.
+From DT Require Import Lib.Bytes Lib.Split Gen.Consts Model.C11_Query Proofs.C11_Query Proofs.C11_Surface Proofs.C11_Order Proofs.C11_Denote Proofs.C11_Quote.
 
 (* Parsing never panics: for every query text and every behaviour of strconv's ParseFloat / Atoi,
    NewQuery returns (nil,nil) for the empty string, an error, or a query - every slice and index
@@ -104,10 +104,30 @@ Theorem C11_finish_no_select : forall q, q_select q = [] -> finish q = RErr.
 Proof. exact finish_no_select. Qed.
 Print Assumptions C11_denote_where.
 
-(* What is still NOT proved of the round trip: the quoting variants (double-quoted operands, back-quoted
-   field names), function calls on the right-hand side of set (md5sum / maskdigits stacks) and the rejection of malformed families; these are decided by the correspondence check, which renders
-   random abstract queries in random clause orders, keyword cases, separator styles and quotings, mutates
-   them, and compares every parsed field of mapr.NewQuery with this model and an independent denotation. *)
+(* Quoting.  A double-quoted string is ONE token, byte for byte (blanks, commas, keywords inside it do not count), and it is
+   never a keyword; as a where operand it is a string literal (C11_denote_where: t_bare = false gives TString). *)
+Theorem C11_quoted_literal : forall pre s post, ~ In dquote pre -> ~ In dquote s ->
+  tokenize (pre ++ dquote :: s ++ dquote :: post) = map bare_tok (fields pre) ++ quoted_tok s :: tokenize post.
+Proof. exact tokenize_quoted. Qed.
+Theorem C11_quoted_not_keyword : forall s, is_keyword (quoted_tok s) = false.
+Proof. exact quoted_not_keyword. Qed.
+(* A back-quoted word in a select list is the FIELD of that name, whatever it contains (`avg(x)` is not an aggregation),
+   and it is never a keyword (`from` is a field). *)
+Theorem C11_denote_select_backquoted : forall is_float atoi items, Forall qitem_ok items ->
+  eff is_float atoi (B"select") (map qitem_tok items) = ROk ([], USelect (map qitem_den items)).
+Proof. exact select_denotes_bq. Qed.
+(* Function stacks on the right-hand side of set: f1(f2(...(arg))) over md5sum / maskdigits denotes the functions outermost
+   first and the innermost argument (which does not end in a closing parenthesis). *)
+Theorem C11_denote_set_funcs : forall is_float atoi es, es <> [] -> Forall (fitem_ok) es -> Forall simple (ftoks es) ->
+  (forall l r, In (l, r) es -> bytes_eqb (lower (t_str l)) (lower (B",")) = false) ->
+  eff is_float atoi (B"set") (ftoks es) = ROk ([], USet (map (fitem_den is_float) es)).
+Proof. exact set_denotes_funcs. Qed.
+Print Assumptions C11_denote_set_funcs.
+
+(* What is still NOT proved of the round trip: the rejection of the malformed families (it is decided by the
+   correspondence check, which renders random abstract queries in random clause orders, keyword cases, separator styles
+   and quotings, mutates them, and compares every parsed field of mapr.NewQuery with this model and an independent
+   denotation), and back-quoted words outside select lists. *)
 Example C11_example :
   let text := B"SeLeCt count(x),`avg(y)`  from stats WHERE a >= 2.5 and ""s t"" eq b group by h rorder by count(x) limit 10" in
   match new_query (fun s => bytes_eqb s (B"2.5")) (fun s => if bytes_eqb s (B"10") then Some 10%Z else None) text with
@@ -135,6 +155,17 @@ Proof.
   - eapply perm_trans; [apply Permutation_rev|]. cbn [rev app].
     apply perm_skip. apply perm_skip. apply perm_swap.
   - split; [vm_compute; repeat constructor; cbn; intuition discriminate|vm_compute; repeat split; reflexivity].
+Qed.
+
+Example C11_quote_example :
+  let items := [QBack (B"avg(x)"); QPlain (SAgg ACount (B"y")); QBack (B"from")] in
+  Forall qitem_ok items
+  /\ map s_storage (map qitem_den items) = [B"avg(x)"; B"count(y)"; B"from"] /\ map s_op (map qitem_den items) = [ALast; ACount; ALast]
+  /\ tokenize (B"where msg eq ""select, from"" and x") = [w "where"; w "msg"; w "eq"; quoted_tok (B"select, from"); w "and"; w "x"]
+  /\ func_stack 9 (wrap [B"md5sum"; B"maskdigits"] (B"$line")) = ROk ([B"md5sum"; B"maskdigits"], B"$line").
+Proof.
+  cbv zeta. split; [|vm_compute; repeat split; reflexivity].
+  repeat constructor; try (vm_compute; reflexivity); cbn; try discriminate; intuition discriminate.
 Qed.
 
 Example C11_denote_example :
